@@ -2,3 +2,304 @@ From Coq Require Import List ZArith Bool Lia.
 Import ListNotations.
 From OV Require Import C20.Model.
 Open Scope Z_scope.
+
+(* ---------- lookups ---------- *)
+Lemma lookup_some users id u : lookup users id = Some u -> In u users /\ u_id u = id.
+Proof.
+  unfold lookup. intro H. apply find_some in H as [H1 H2]. apply Z.eqb_eq in H2. auto.
+Qed.
+
+Definition users_ok (users : list user) : Prop :=
+  (forall u, In u users -> 0 < u_id u) /\ (forall u, In u users -> thumb_only_x509 u = true).
+
+Lemma valid_users_ok c : valid c = true -> users_ok (c_users c).
+Proof.
+  unfold valid. intro H.
+  apply andb_true_iff in H as [H _]. apply andb_true_iff in H as [H Hth]. apply andb_true_iff in H as [_ Hpos].
+  split; intros u Hu.
+  - rewrite forallb_forall in Hpos. apply Hpos in Hu. apply Z.ltb_lt in Hu. exact Hu.
+  - rewrite forallb_forall in Hth. apply Hth in Hu. exact Hu.
+Qed.
+
+Lemma in_ep_users users e u :
+  In u (ep_users users e) <-> exists id, In id (e_ids e) /\ lookup users id = Some u.
+Proof.
+  unfold ep_users. rewrite in_flat_map. split.
+  - intros [id [Hi Hu]]. exists id. split; [exact Hi|].
+    destruct (lookup users id) as [v|]; cbn in Hu; [|contradiction].
+    destruct Hu as [->|[]]. reflexivity.
+  - intros [id [Hi Hl]]. exists id. split; [exact Hi|]. rewrite Hl. left. reflexivity.
+Qed.
+
+(* ---------- the user name loop = "the first token with that name decides" ---------- *)
+Lemma user_loop_spec users name pw ids :
+  user_loop users name pw ids =
+  match find (fun u => negb (u_x509 u) && (u_name u =? name))
+             (flat_map (fun id => match lookup users id with Some u => [u] | None => [] end) ids) with
+  | Some u => if password_ok u pw then 0 else 3
+  | None => 3
+  end.
+Proof.
+  induction ids as [|id rest IH]; cbn [user_loop flat_map]; [reflexivity|].
+  destruct (lookup users id) as [u|]; cbn [app find].
+  - destruct (negb (u_x509 u) && (u_name u =? name)); [reflexivity | exact IH].
+  - exact IH.
+Qed.
+
+Lemma user_loop_accept users e name pw :
+  user_loop users name pw (e_ids e) = 0 <-> configured_user users e name pw = true.
+Proof.
+  rewrite user_loop_spec. unfold configured_user, ep_users.
+  destruct (find _ _) as [u|]; [|split; discriminate].
+  destruct (password_ok u pw); split; intro; try reflexivity; discriminate.
+Qed.
+
+Lemma configured_user_supports users e name pw :
+  users_ok users -> configured_user users e name pw = true -> supports_user_pass users e = true.
+Proof.
+  intros [Hpos _]. unfold configured_user.
+  destruct (find _ _) as [u|] eqn:F; [|discriminate]. intros _.
+  apply find_some in F as [Hin Hp]. apply andb_true_iff in Hp as [Hx _].
+  apply in_ep_users in Hin as [id [Hid Hl]].
+  unfold supports_user_pass. apply existsb_exists. exists id. split; [exact Hid|].
+  rewrite Hl. apply lookup_some in Hl as [Hu Heq]. apply Hpos in Hu.
+  apply andb_true_iff. split; [|exact Hx]. apply negb_true_iff. apply Z.eqb_neq. lia.
+Qed.
+
+(* ---------- the thumbprint loop ---------- *)
+Lemma thumb_loop_accept users e cert :
+  thumb_loop users cert (e_ids e) = 0 <-> configured_thumb users e cert = true.
+Proof.
+  unfold configured_thumb, ep_users. induction (e_ids e) as [|id rest IH]; cbn [thumb_loop flat_map existsb].
+  - split; discriminate.
+  - destruct (lookup users id) as [u|]; cbn [app existsb]; [|exact IH].
+    destruct (u_thumb u) as [t|]; [|cbn [orb]; exact IH].
+    destruct (t =? cert); cbn [orb]; [split; reflexivity | exact IH].
+Qed.
+
+Lemma thumb_loop_codes users cert ids : thumb_loop users cert ids = 0 \/ thumb_loop users cert ids = 1.
+Proof.
+  induction ids as [|id rest IH]; cbn [thumb_loop]; [right; reflexivity|].
+  destruct (lookup users id) as [u|]; [|exact IH].
+  destruct (u_thumb u) as [t|]; [|exact IH]. destruct (t =? cert); [left; reflexivity | exact IH].
+Qed.
+
+Lemma configured_thumb_supports users e cert :
+  users_ok users -> configured_thumb users e cert = true -> supports_x509 users e = true.
+Proof.
+  intros [Hpos Hth]. unfold configured_thumb. intro H. apply existsb_exists in H as [u [Hin Ht]].
+  apply in_ep_users in Hin as [id [Hid Hl]].
+  unfold supports_x509. apply existsb_exists. exists id. split; [exact Hid|].
+  rewrite Hl. apply lookup_some in Hl as [Hu Heq].
+  apply andb_true_iff. split.
+  - apply negb_true_iff. apply Z.eqb_neq. apply Hpos in Hu. lia.
+  - apply Hth in Hu. unfold thumb_only_x509 in Hu. destruct (u_thumb u); [exact Hu | discriminate].
+Qed.
+
+(* ---------- accepted <-> configured, for every token ---------- *)
+Lemma token_password_supplied f bound cur pw :
+  token_password f bound cur = inl pw <-> supplied_password f bound cur = Some pw.
+Proof.
+  destruct f as [p| |p|a p n p0]; cbn [token_password supplied_password]; try (split; intro H; inversion H; reflexivity); try (split; discriminate).
+  destruct a, p; cbn [alg_known alg_names negb andb]; try (split; discriminate);
+    destruct (nonce_of n bound =? cur); split; intro H; inversion H; reflexivity.
+Qed.
+
+Lemma token_password_class f bound cur cls : token_password f bound cur = inr cls -> cls <> 0.
+Proof.
+  destruct f as [p| |p|a p n p0]; cbn [token_password]; try discriminate.
+  - intro H; inversion H; lia.
+  - destruct (negb (alg_known a)); [intro H; inversion H; lia|].
+    destruct (alg_names a p && _); [discriminate | intro H; inversion H; lia].
+Qed.
+
+Theorem accept_iff_configured c t bound cur :
+  users_ok (c_users c) -> (authenticate c t bound cur = 0 <-> spec_accept c t bound cur = true).
+Proof.
+  intro Hok. unfold authenticate, spec_accept, the_endpoint.
+  destruct (find_endpoint _ _ _ _) as [e|]; [|split; discriminate].
+  destruct t as [|p|p name f|p cert s|p|].
+  - unfold auth_anonymous. cbn [pid_eqb negb]. destruct (supports_anonymous e); cbn; split; congruence.
+  - unfold auth_anonymous. destruct (pid_eqb p PidAnonymous); cbn [negb andb]; [|split; discriminate].
+    destruct (supports_anonymous e); cbn; split; congruence.
+  - unfold auth_user. destruct name as [nm|].
+    + destruct (pid_eqb p (user_pass_pid e)) eqn:Hp; cbn [negb andb].
+      * destruct (token_password f bound cur) as [pw|cls] eqn:Htp.
+        -- apply token_password_supplied in Htp. rewrite Htp.
+           destruct (supports_user_pass (c_users c) e) eqn:Hs; cbn [negb].
+           ++ apply user_loop_accept.
+           ++ split; [discriminate|]. intro H. apply configured_user_supports in H; [congruence | exact Hok].
+        -- assert (Hn : supplied_password f bound cur = None).
+           { destruct (supplied_password f bound cur) as [pw|] eqn:E; [|reflexivity].
+             apply token_password_supplied in E. congruence. }
+           rewrite Hn. apply token_password_class in Htp.
+           destruct (supports_user_pass (c_users c) e); cbn [negb]; split; try discriminate; intro; contradiction.
+      * destruct (supports_user_pass (c_users c) e); cbn [negb]; split; discriminate.
+    + destruct (supports_user_pass (c_users c) e); cbn [negb]; [|split; discriminate].
+      destruct (pid_eqb p (user_pass_pid e)); cbn [negb]; split; discriminate.
+  - unfold auth_x509. destruct (pid_eqb p PidX509); cbn [negb andb].
+    + destruct (sig_ok cert s bound cur); cbn [andb].
+      * destruct (supports_x509 (c_users c) e) eqn:Hs; cbn [negb].
+        -- apply thumb_loop_accept.
+        -- split; [discriminate|]. intro H. apply configured_thumb_supports in H; [congruence | exact Hok].
+      * destruct (supports_x509 (c_users c) e); cbn [negb]; split; discriminate.
+    + destruct (supports_x509 (c_users c) e); cbn [negb]; split; discriminate.
+  - unfold auth_x509. destruct (supports_x509 (c_users c) e); cbn [negb]; [|split; discriminate].
+    destruct (pid_eqb p PidX509); cbn [negb]; split; discriminate.
+  - split; discriminate.
+Qed.
+
+(* ---------- the three sentences of the property ---------- *)
+Theorem anonymous_only_if_allowed c t bound cur :
+  (t = TNull \/ exists p, t = TAnon p) -> authenticate c t bound cur = 0 ->
+  exists e, the_endpoint c = Some e /\ In 0 (e_ids e).
+Proof.
+  intros Ht H. unfold authenticate in H. unfold the_endpoint.
+  destruct (find_endpoint _ _ _ _) as [e|]; [|discriminate]. exists e. split; [reflexivity|].
+  assert (Hs : supports_anonymous e = true).
+  { destruct Ht as [->|[p ->]]; unfold auth_anonymous in H.
+    - cbn [pid_eqb negb] in H. destruct (supports_anonymous e); [reflexivity | discriminate].
+    - destruct (pid_eqb p PidAnonymous); cbn [negb] in H; [|discriminate].
+      destruct (supports_anonymous e); [reflexivity | discriminate]. }
+  unfold supports_anonymous in Hs. apply existsb_exists in Hs as [x [Hx Hz]]. apply Z.eqb_eq in Hz. subst x. exact Hx.
+Qed.
+
+Theorem user_only_if_configured c p name f bound cur :
+  users_ok (c_users c) -> authenticate c (TUser p name f) bound cur = 0 ->
+  exists e nm pw u, the_endpoint c = Some e /\ name = Some nm /\
+    supplied_password f bound cur = Some pw /\
+    In u (c_users c) /\ In (u_id u) (e_ids e) /\ u_x509 u = false /\ u_name u = nm /\ password_ok u pw = true.
+Proof.
+  intros Hok H. apply accept_iff_configured in H; [|exact Hok]. unfold spec_accept in H.
+  destruct (the_endpoint c) as [e|]; [|discriminate]. destruct name as [nm|]; [|discriminate].
+  apply andb_true_iff in H as [_ H].
+  destruct (supplied_password f bound cur) as [pw|]; [|discriminate].
+  unfold configured_user in H. destruct (find _ _) as [u|] eqn:F; [|discriminate].
+  apply find_some in F as [Hin Hp]. apply andb_true_iff in Hp as [Hx Hn].
+  apply in_ep_users in Hin as [id [Hid Hl]]. apply lookup_some in Hl as [Hu Heq].
+  exists e, nm, pw, u. repeat split; try assumption.
+  - subst id. exact Hid.
+  - apply negb_true_iff in Hx. exact Hx.
+  - apply Z.eqb_eq in Hn. exact Hn.
+Qed.
+
+(* completeness for user names: if the user/password tokens of the endpoint have distinct user
+   names, every configured (name, password) is accepted when sent with the right policy id *)
+Theorem user_if_configured c e u name pw f bound cur :
+  users_ok (c_users c) -> the_endpoint c = Some e ->
+  lookup (c_users c) (u_id u) = Some u -> In (u_id u) (e_ids e) -> u_x509 u = false -> u_name u = name ->
+  (forall v, In v (ep_users (c_users c) e) -> u_x509 v = false -> u_name v = name -> v = u) ->
+  password_ok u pw = true -> supplied_password f bound cur = Some pw ->
+  authenticate c (TUser (user_pass_pid e) (Some name) f) bound cur = 0.
+Proof.
+  intros Hok He Hl Hid Hx Hn Huniq Hpw Hs. apply accept_iff_configured; [exact Hok|].
+  unfold spec_accept. rewrite He, Hs.
+  assert (Hp : pid_eqb (user_pass_pid e) (user_pass_pid e) = true) by (destruct (user_pass_pid e); reflexivity).
+  rewrite Hp. cbn [andb]. unfold configured_user.
+  destruct (find _ _) as [v|] eqn:F.
+  - apply find_some in F as [Hin Hv]. apply andb_true_iff in Hv as [Hvx Hvn].
+    apply negb_true_iff in Hvx. apply Z.eqb_eq in Hvn.
+    rewrite (Huniq v Hin Hvx Hvn). exact Hpw.
+  - exfalso. assert (Hin : In u (ep_users (c_users c) e)) by (apply in_ep_users; exists (u_id u); auto).
+    apply (find_none _ _ F) in Hin. rewrite Hx, Hn, Z.eqb_refl in Hin. discriminate.
+Qed.
+
+Theorem x509_only_if_configured c p cert s bound cur :
+  users_ok (c_users c) -> authenticate c (TX509 p cert s) bound cur = 0 ->
+  exists e u, the_endpoint c = Some e /\ sig_ok cert s bound cur = true /\
+    In u (c_users c) /\ In (u_id u) (e_ids e) /\ u_thumb u = Some cert.
+Proof.
+  intros Hok H. apply accept_iff_configured in H; [|exact Hok]. unfold spec_accept in H.
+  destruct (the_endpoint c) as [e|]; [|discriminate].
+  apply andb_true_iff in H as [H Ht]. apply andb_true_iff in H as [_ Hs].
+  unfold configured_thumb in Ht. apply existsb_exists in Ht as [u [Hin Hu]].
+  apply in_ep_users in Hin as [id [Hid Hl]]. apply lookup_some in Hl as [Hu' Heq].
+  exists e, u. repeat split; try assumption.
+  - subst id. exact Hid.
+  - destruct (u_thumb u) as [t|]; [|discriminate]. apply Z.eqb_eq in Hu. congruence.
+Qed.
+
+Theorem x509_if_configured c e u cert s bound cur :
+  users_ok (c_users c) -> the_endpoint c = Some e ->
+  lookup (c_users c) (u_id u) = Some u -> In (u_id u) (e_ids e) -> u_thumb u = Some cert ->
+  sig_ok cert s bound cur = true ->
+  authenticate c (TX509 PidX509 cert s) bound cur = 0.
+Proof.
+  intros Hok He Hl Hid Ht Hs. apply accept_iff_configured; [exact Hok|].
+  unfold spec_accept. rewrite He, Hs. cbn [pid_eqb andb].
+  unfold configured_thumb. apply existsb_exists. exists u. split.
+  - apply in_ep_users. exists (u_id u). auto.
+  - rewrite Ht. apply Z.eqb_refl.
+Qed.
+
+(* a password encrypted for another nonce than the session's current one is rejected; so is an
+   X.509 token whose signature covers another nonce *)
+Theorem stale_password_rejected c p name a pd pw bound cur :
+  bound <> cur -> authenticate c (TUser p name (Enc a pd NCur pw)) bound cur <> 0.
+Proof.
+  intros Hne H. unfold authenticate in H. destruct (find_endpoint _ _ _ _) as [e|]; [|discriminate].
+  unfold auth_user in H. destruct (negb (supports_user_pass _ _)); [discriminate|].
+  destruct (negb (pid_eqb _ _)); [discriminate|]. destruct name; [|discriminate].
+  cbn [token_password nonce_of] in H. destruct (negb (alg_known a)); [discriminate|].
+  assert (E : (bound =? cur) = false) by (apply Z.eqb_neq; exact Hne).
+  rewrite E, andb_false_r in H. discriminate.
+Qed.
+
+Theorem stale_x509_rejected c p cert key sha1 intact bound cur :
+  bound <> cur -> authenticate c (TX509 p cert (Sig key sha1 NCur intact)) bound cur <> 0.
+Proof.
+  intros Hne H. unfold authenticate in H. destruct (find_endpoint _ _ _ _) as [e|]; [|discriminate].
+  unfold auth_x509 in H. destruct (negb (supports_x509 _ _)); [discriminate|].
+  destruct (negb (pid_eqb _ _)); [discriminate|].
+  cbn [sig_ok nonce_of] in H.
+  assert (E : (bound =? cur) = false) by (apply Z.eqb_neq; exact Hne).
+  rewrite E, andb_false_r, andb_false_l in H. discriminate.
+Qed.
+
+(* ---------- histories ---------- *)
+Definition resolve (s : step) (cur : Z) (sent : list (token * Z)) : token * Z :=
+  match s with
+  | Fresh t => (t, cur)
+  | Replay j => match nth_sent sent (Z.to_nat j) with Some x => x | None => (TOther, -1) end
+  end.
+
+Lemma spec_steps_run c : users_ok (c_users c) ->
+  forall steps cur next maxn sent, maxn < next -> cur < next ->
+  spec_steps c steps (run_steps true c steps cur next sent) cur maxn sent = true.
+Proof.
+  intros Hok. induction steps as [|s rest IH]; intros cur next maxn sent Hm Hc; [reflexivity|].
+  cbn [run_steps spec_steps].
+  change (match s with
+          | Fresh t => (t, cur)
+          | Replay j => match nth_sent sent (Z.to_nat j) with Some x => x | None => (TOther, -1) end
+          end) with (resolve s cur sent).
+  destruct (resolve s cur sent) as [t bound].
+  cbv zeta. cbn [orb].
+  destruct (authenticate c t bound cur =? 0) eqn:Hr; cbn [spec_steps]; rewrite ?Hr.
+  - apply Z.eqb_eq in Hr.
+    assert (Hs : spec_accept c t bound cur = true) by (apply accept_iff_configured; assumption).
+    rewrite Hs. cbn [Bool.eqb andb].
+    assert (Hlt : (maxn <? next) = true) by (apply Z.ltb_lt; exact Hm). rewrite Hlt. cbn [andb].
+    apply IH; lia.
+  - assert (Hs : spec_accept c t bound cur = false).
+    { destruct (spec_accept c t bound cur) eqn:E; [|reflexivity].
+      apply accept_iff_configured in E; [|exact Hok]. apply Z.eqb_neq in Hr. contradiction. }
+    rewrite Hs. cbn [Bool.eqb andb]. rewrite Z.eqb_refl. cbn [andb].
+    apply IH; lia.
+Qed.
+
+Theorem oracle_holds c : valid c = true -> oracle c (run c) = true.
+Proof.
+  intro Hv. unfold oracle, run, run_with.
+  destruct (existsb _ _); [|reflexivity].
+  rewrite Z.eqb_refl. cbn [andb]. apply spec_steps_run; [apply valid_users_ok; exact Hv | lia | lia].
+Qed.
+
+(* before the fix: on a SecurityPolicy None channel a password encrypted once was accepted again *)
+Definition legacy_witness : case :=
+  mk_case [mk_ep 0 PNone 1 (Some PBasic256Sha256) [1]] [mk_user 1 0 (Some 1) false None] 0 PNone 1
+          [Fresh (TUser PidOaep (Some 0) (Enc AlgOaep OaepSha1 NCur 1)); Replay 0].
+Theorem legacy_refuted :
+  valid legacy_witness = true /\ oracle legacy_witness (Legacy.run legacy_witness) = false /\
+  Legacy.run legacy_witness = [0; 0; 0; 0; 0].
+Proof. vm_compute. repeat split. Qed.
